@@ -16,6 +16,10 @@
 (*                    were answered with success / a conflict / "replica   *)
 (*                    unavailable" / another error (the fault assignment,  *)
 (*                    whether or not the handler waited for the answer)    *)
+(*     noconn         how many of its replica writes were never sent: the  *)
+(*                    handler had no connection to the peer (peer in its   *)
+(*                    back-off window after earlier failures); a failed    *)
+(*                    dial is counted under other                          *)
 (*     stored        how many replicas had stored the series at the moment *)
 (*                    the client got its answer                            *)
 (* n = rf, or 1 for an already-replicated request.                         *)
@@ -80,15 +84,20 @@ FailureThreshold(rf, replicated) == ReplicasFor(rf, replicated) - SuccessThresho
 (* canReturnEarly: every series reached the success threshold or is blocked by conflicts *)
 CanReturnEarly(S, succ, conf, st, ft) == \A s \in S : succ[s] >= st \/ conf[s] >= ft
 
-(* replicationErrors.Cause for one series with c conflict, u unavailable, o other accounted errors. *)
-(* Counted per expected error: conflict c, notReady u (codes.Unavailable matches isNotReady too),   *)
-(* unavailable u; sorted by count, descending, stable (conflict, notReady, unavailable); only the   *)
-(* first entry is compared with the threshold.                                                      *)
-ReplCause(c, u, o, th) ==
-    IF c + u + o = 0 THEN "empty"
-    ELSE IF c >= u /\ c >= th THEN "conflict"
-    ELSE IF u > c /\ u >= th THEN "notready"
-    ELSE IF c + u + o >= th THEN "unavailable"
+(* replicationErrors.Cause for one series, from its accounted errors: c conflicts, g answers with     *)
+(* gRPC code Unavailable, r refusals by the handler's own peer group (errUnavailable: peer in back-off, *)
+(* no RPC made), o other errors (incl. a failed dial, whose cause is the dial error).                  *)
+(* Counted per expected error: conflict c, notReady g (codes.Unavailable matches isNotReady),           *)
+(* unavailable g + r; sorted by count, descending, stable (conflict, notReady, unavailable); only the   *)
+(* first entry is compared with the threshold.                                                          *)
+ReplCause(c, g, r, o, th) ==
+    LET n == g
+        u == g + r
+        total == c + g + r + o IN
+    IF total = 0 THEN "empty"
+    ELSE IF c >= n /\ c >= u THEN (IF c >= th THEN "conflict" ELSE IF total >= th THEN "unavailable" ELSE "nil")
+    ELSE IF n >= u THEN (IF n >= th THEN "notready" ELSE IF total >= th THEN "unavailable" ELSE "nil")
+    ELSE IF u >= th \/ total >= th THEN "unavailable"
     ELSE "nil"
 
 (* writeErrors.Cause over the failing series: prefers unavailable, then notReady, then conflict *)
@@ -108,13 +117,14 @@ StatusOf(cause) == CASE cause \in {"unavailable", "notready"} -> 503
 Decide(S, fail, errs, ft, th) ==
     LET failing == { s \in S : fail[s] >= ft } IN
     IF failing = {} THEN 200
-    ELSE StatusOf(WriteCause({ ReplCause(errs[s].c, errs[s].u, errs[s].o, th) : s \in failing }))
+    ELSE StatusOf(WriteCause({ ReplCause(errs[s].c, errs[s].u, errs[s].r, errs[s].o, th) : s \in failing }))
 
 (* The same from the complete fault assignment of a run record (used for model conformance). *)
 PredictedStatus(run, rf, replicated) ==
     LET S == DOMAIN run.series
         ft == FailureThreshold(rf, replicated)
-        fail == [s \in S |-> run.series[s].conflict + run.series[s].unavailable + run.series[s].other]
-        errs == [s \in S |-> [c |-> run.series[s].conflict, u |-> run.series[s].unavailable, o |-> run.series[s].other]]
+        fail == [s \in S |-> run.series[s].conflict + run.series[s].unavailable + run.series[s].noconn + run.series[s].other]
+        errs == [s \in S |-> [c |-> run.series[s].conflict, u |-> run.series[s].unavailable,
+                              r |-> run.series[s].noconn, o |-> run.series[s].other]]
     IN Decide(S, fail, errs, ft, ft)
 =============================================================================
